@@ -10,6 +10,7 @@ import (
 	_select "github.com/MichaelMure/git-bug/commands/select"
 	"github.com/MichaelMure/git-bug/entities/bug"
 	"github.com/MichaelMure/git-bug/entity"
+	"github.com/MichaelMure/git-bug/repository"
 )
 
 func init() { props["C13"] = runC13 }
@@ -169,10 +170,7 @@ func c13Resolve(c *runCtx) {
 		sort.Slice(bugs, func(i, j int) bool { return bugs[i].Id < bugs[j].Id })
 
 		lens := []int{0, 1, 2, 3, 4, 7, 16, 63, 64}
-		type q struct {
-			K   string `json:"k"`
-			Pre string `json:"pre"`
-		}
+		type q = c13Q
 		// one case per (kind, population) so that the driver sees the right id set
 		emitQ := func(kind string, ids []string, qs []q, outs []any, fails []string) {
 			in := map[string]any{"cmd": "resolve", "ids": ids, "bugs": bugs, "q": qs}
@@ -431,7 +429,157 @@ func c13Resolve(c *runCtx) {
 			}
 		}
 		emitQ("bug", bugIds, qs, outs, fails)
+		// --- a bug that is not loaded in this session is removed: none of its prefixes answers any more,
+		// and what it shared a prefix with resolves as if it had never been there
+		var victim string
+		for _, id := range bugIds {
+			if victim == "" {
+				victim = id
+			}
+		}
+		if victim != "" && len(bugIds) > 2 {
+			rc.Close()
+			rc = mustCache(repo) // nothing loaded
+			if err := rc.Bugs().Remove(victim); err != nil {
+				c.violation(-1, "C13/remove-failed", "removing a bug that is not loaded failed: "+err.Error(), nil)
+			}
+			var left []string
+			for _, id := range bugIds {
+				if id != victim {
+					left = append(left, id)
+				}
+			}
+			qs, outs, fails = nil, nil, nil
+			for _, n := range []int{1, 2, 3, 7, 64} {
+				pre := victim[:n]
+				qs = append(qs, q{"id", pre})
+				outs = append(outs, resolveOne(left, pre, func(p string) (string, error) {
+					b, err := rc.Bugs().ResolvePrefix(p)
+					if err != nil {
+						return "", err
+					}
+					return string(b.Id()), nil
+				}))
+			}
+			emitQ("bug", left, qs, outs, fails)
+			c.count("removed-not-loaded-then-prefix")
+		}
 		rc.Close()
+	}
+	c13AfterPull(c)
+}
+
+type c13Q struct {
+	K   string `json:"k"`
+	Pre string `json:"pre"`
+}
+
+// c13Resolve1: one lookup, judged straight from the statement of C13 (as resolveOne in the main slice)
+func c13Resolve1(c *runCtx, ids []string, pre string, f func(string) (string, error), fails *[]string) any {
+	got, err := f(pre)
+	cls, ms := classify(err)
+	var want []string
+	for _, id := range ids {
+		if strings.HasPrefix(id, pre) {
+			want = append(want, id)
+		}
+	}
+	c.count(fmt.Sprintf("resolve:%s", cls))
+	switch {
+	case len(want) == 1:
+		if cls != "found" || got != want[0] {
+			*fails = append(*fails, fmt.Sprintf("prefix %q matches exactly %s but resolution gave %s %s", pre, want[0], cls, got))
+		}
+		return map[string]any{"found": got}
+	case len(want) == 0:
+		if cls != "notFound" {
+			*fails = append(*fails, fmt.Sprintf("prefix %q matches nothing but resolution gave %s", pre, cls))
+		}
+	default:
+		if cls != "multiple" || strings.Join(ms, ",") != strings.Join(want, ",") {
+			*fails = append(*fails, fmt.Sprintf("prefix %q matches %d ids but resolution gave %s %v", pre, len(want), cls, ms))
+		}
+	}
+	switch cls {
+	case "found":
+		return map[string]any{"found": got}
+	case "multiple":
+		return map[string]any{"multiple": ms}
+	case "notFound":
+		return map[string]any{"notFound": true}
+	}
+	return map[string]any{"error": cls}
+}
+
+// c13AfterPull: lookups made while a prefix identified one bug, then a pull that brings bugs sharing that
+// prefix, then the same lookups in the same session: the answer follows the population.
+func c13AfterPull(c *runCtx) {
+	for rep := 0; rep < c.pick(2, 8); rep++ {
+		remote, _ := newGoGit("c13remote", true)
+		repoA, _ := newGoGit("c13a", false)
+		repoB, _ := newGoGit("c13b", false)
+		for _, rp := range []repository.TestedRepo{repoA, repoB} {
+			if err := rp.AddRemote("origin", remote.GetLocalRemote()); err != nil {
+				panic(err)
+			}
+		}
+		rcA, rcB := mustCache(repoA), mustCache(repoB)
+		ia, err := rcA.Identities().New("A", "a@example.com")
+		if err != nil {
+			panic(err)
+		}
+		rcA.SetUserIdentity(ia)
+		ib, err := rcB.Identities().New("B", "b@example.com")
+		if err != nil {
+			panic(err)
+		}
+		rcB.SetUserIdentity(ib)
+		for i := 0; i < 3; i++ {
+			rcB.Bugs().New(fmt.Sprintf("local %d", i), "m")
+		}
+		ask := func(when string) {
+			var ids []string
+			for _, id := range rcB.Bugs().AllIds() {
+				ids = append(ids, string(id))
+			}
+			sort.Strings(ids)
+			var qs []c13Q
+			var outs []any
+			var fails []string
+			look := func(p string) (string, error) {
+				b, err := rcB.Bugs().ResolvePrefix(p)
+				if err != nil {
+					return "", err
+				}
+				return string(b.Id()), nil
+			}
+			for _, ch := range "0123456789abcdef" {
+				qs = append(qs, c13Q{"id", string(ch)})
+				outs = append(outs, c13Resolve1(c, ids, string(ch), look, &fails))
+			}
+			for _, id := range ids {
+				qs = append(qs, c13Q{"id", id[:2]})
+				outs = append(outs, c13Resolve1(c, ids, id[:2], look, &fails))
+			}
+			cid := c.emit(map[string]any{"cmd": "resolve", "ids": ids, "bugs": []c13Bug{}, "q": qs, "when": when}, outs)
+			for _, f := range fails {
+				c.violation(cid, "C13/resolve", when+": "+f, nil)
+			}
+		}
+		ask("before the pull")
+		for i := 0; i < 40; i++ {
+			rcA.Bugs().New(fmt.Sprintf("remote %d", i), "m")
+		}
+		rcA.Push("origin")
+		if err := rcB.Pull("origin"); err != nil {
+			panic(err)
+		}
+		ask("after the pull")
+		c.count("lookups-around-a-pull")
+		rcA.Close()
+		rcB.Close()
+		remote.Close()
+		cleanupScratch()
 	}
 }
 
